@@ -395,6 +395,9 @@ def main():
     ap.add_argument("--every", type=int, default=1)
     ap.add_argument("--offset", type=int, default=0)
     ap.add_argument("--limit", type=int, default=0)
+    ap.add_argument("--ids", default="",
+                    help="run: re-run just these mutants (comma separated), "
+                         "even if they have a result already")
     args = ap.parse_args()
     os.makedirs(OUT, exist_ok=True)
     files = args.files.split(",")
@@ -463,7 +466,10 @@ def main():
         for i, (meta, new) in enumerate(mutants_of(f)):
             if i % args.every != args.offset % args.every:
                 continue
-            if meta["id"] in done:
+            if args.ids:
+                if meta["id"] not in args.ids.split(","):
+                    continue
+            elif meta["id"] in done:
                 continue
             todo.append((meta, new))
     if args.limit:
